@@ -28,7 +28,7 @@ InitState(cfg, faults) ==
    ws |-> [i \in 1..Len(cfg.ws) |->
             [st |-> "stopped", rel |-> FALSE, np |-> cfg.ws[i].np, pr |-> <<>>, sing |-> cfg.ws[i].sing, resp |-> cfg.ws[i].resp,
              od |-> ("od" \in DOMAIN cfg.ws[i] /\ cfg.ws[i].od), G |-> cfg.ws[i].G, W |-> cfg.ws[i].W, ssig |-> cfg.ws[i].ssig, sch |-> cfg.ws[i].sch,
-             hup |-> cfg.ws[i].hup]],
+             hup |-> cfg.ws[i].hup, mage |-> IF "mage" \in DOMAIN cfg.ws[i] THEN cfg.ws[i].mage ELSE 0]],
    wl |-> [i \in 1..Len(cfg.ws) |-> i], wn |-> <<>>,
    fr |-> [f \in FrameIds |-> NoFrame], cur |-> <<>>, rq |-> <<>>, tm |-> {}, pnext |-> -1, pdue |-> 0,
    slot |-> "", stopping |-> FALSE, restarting |-> FALSE, exited |-> FALSE, creq |-> QuitReq,
@@ -44,7 +44,7 @@ MObs(st) ==
    w |-> [jj \in 1..Len(DirSeq(st)) |-> LET i == DirSeq(st)[jj] IN
             [n |-> WN(st, i), ln |-> WL(st, i), st |-> st.ws[i].st, np |-> st.ws[i].np, npbad |-> FALSE, sing |-> st.ws[i].sing,
              resp |-> st.ws[i].resp, G |-> st.ws[i].G * 100, W |-> st.ws[i].W * 100, ssig |-> st.ws[i].ssig,
-             sch |-> st.ws[i].sch, od |-> st.ws[i].od, mage |-> 0, hup |-> st.ws[i].hup, ver |-> st.cfg.ws[i].ver,
+             sch |-> st.ws[i].sch, od |-> st.ws[i].od, mage |-> st.ws[i].mage, hup |-> st.ws[i].hup, ver |-> st.cfg.ws[i].ver,
              pr |-> [j \in 1..Len(st.ws[i].pr) |->
                        <<st.ws[i].pr[j].p, st.ws[i].pr[j].wid, IF st.k[st.ws[i].pr[j].p].stp THEN 1 ELSE 0>>]]],
    k |-> [p \in 1..NP(st) |-> <<p, st.k[p].st, st.k[p].ws, st.k[p].par>>],
@@ -59,7 +59,8 @@ MCfg(cfg) == [fm |-> TRUE, file |-> [i \in 1..Len(cfg.ws) |-> FileMs(cfg.ws[i])]
               ws |-> [i \in 1..Len(cfg.ws) |->
                         [n |-> cfg.ws[i].ln, np |-> cfg.ws[i].np, G |-> cfg.ws[i].G * 100, W |-> cfg.ws[i].W * 100,
                          sing |-> cfg.ws[i].sing, resp |-> cfg.ws[i].resp, auto |-> cfg.ws[i].auto,
-                         prio |-> cfg.ws[i].prio, ssig |-> cfg.ws[i].ssig, sch |-> cfg.ws[i].sch, mage |-> 0,
+                         prio |-> cfg.ws[i].prio, ssig |-> cfg.ws[i].ssig, sch |-> cfg.ws[i].sch,
+                         mage |-> IF "mage" \in DOMAIN cfg.ws[i] THEN cfg.ws[i].mage ELSE 0,
                          hup |-> cfg.ws[i].hup, od |-> ("od" \in DOMAIN cfg.ws[i] /\ cfg.ws[i].od),
                          hooks |-> cfg.ws[i].hooks]]]
 
